@@ -1,6 +1,7 @@
 /-! Hand-written model of `Path._tokenize_path` (svgpathtools/path.py):
 `COMMAND_RE.split(pathdef)` followed by `FLOAT_RE.findall` on every piece, with
-`FLOAT_RE = [-+]?[0-9]*\.?[0-9]+(?:[eE][-+]?[0-9]+)?`.  A deterministic scanner that makes the
+`FLOAT_RE = [-+]?(?:[0-9]+\.?[0-9]*|\.[0-9]+)(?:[eE][-+]?[0-9]+)?` (as repaired: a digit sequence followed by a
+bare dot, `1.` / `1.e2`, is a number in the SVG grammar).  A deterministic scanner that makes the
 same choices as Python's backtracking matcher; tied to the real tokenizer by exhaustive
 correspondence on short strings over the characters that matter. -/
 namespace SvgVerif.Model.Lexer
@@ -24,16 +25,23 @@ def stripSign (cs : List Char) : List Char × List Char :=
   | c :: r => if isSign c then ([c], r) else ([], cs)
   | [] => ([], [])
 
-/-- `[0-9]*\.?[0-9]+` with Python's backtracking: digits, then `.digits` if at least one digit follows the dot,
-otherwise the digits alone (which must then be non-empty) -/
+/-- `(?:[0-9]+\.?[0-9]*|\.[0-9]+)`: digits, then an optional dot and optional further digits; or, when no
+digit comes first, a dot followed by at least one digit.  (Nothing after the mantissa can make the overall
+match fail, so Python's matcher never backtracks into it.) -/
 def mantissa (r0 : List Char) : Option (List Char × List Char) :=
   let (d1, r1) := takeDigits r0
-  match r1 with
-  | '.' :: r2 =>
-    let (d2, r3) := takeDigits r2
-    if d2 ≠ [] then some (d1 ++ '.' :: d2, r3)
-    else if d1 ≠ [] then some (d1, r1) else none
-  | _ => if d1 ≠ [] then some (d1, r1) else none
+  if d1 ≠ [] then
+    match r1 with
+    | '.' :: r2 =>
+      let (d2, r3) := takeDigits r2
+      some (d1 ++ '.' :: d2, r3)
+    | _ => some (d1, r1)
+  else
+    match r1 with
+    | '.' :: r2 =>
+      let (d2, r3) := takeDigits r2
+      if d2 ≠ [] then some ('.' :: d2, r3) else none
+    | _ => none
 
 /-- `(?:[eE][-+]?[0-9]+)?` after the text `pre` matched so far: (whole match, rest) -/
 def exponent (pre r : List Char) : List Char × List Char :=
